@@ -343,6 +343,56 @@ func c10R4(r *Report) {
 		})
 	}
 	r.Sentinel("R4.append", nApp, 1)
+	// (a'') "nothing to wait for": Request answers (false, nil, nil) without queueing anything when the store says the
+	// piece is there. That answer is right only for a verified piece: every return of the store's function that can
+	// yield true is the piece's Complete() — a piece that is merely being hashed may still fail, and then nobody waits
+	// for it and no priority was registered.
+	{
+		nC := 0
+		allInstrs(treq, func(in ssa.Instruction) {
+			iff, ok := in.(*ssa.If)
+			if !ok {
+				return
+			}
+			c, ok := Guard{Cond: iff.Cond, Pol: true}.norm().Cond.(*ssa.Call)
+			if !ok || c.Call.IsInvoke() {
+				return
+			}
+			h := c.Call.StaticCallee()
+			if h == nil || h.Blocks == nil || relPkg(h) != "tor/piece" || h.Signature.Results().Len() != 1 || !isBoolType(h.Signature.Results().At(0).Type()) {
+				return
+			}
+			nC++
+			bad := token.NoPos
+			for _, ret := range returnsOf(h) {
+				v := ret.Results[0]
+				if b, isb := constBool(v); isb {
+					if !b {
+						continue
+					}
+					// a constant true: under Complete() == true
+					okG := false
+					for _, g := range guardsOf(ret.Block()) {
+						g = g.norm()
+						if gc, isC := g.Cond.(*ssa.Call); isC && g.Pol && gc.Call.StaticCallee() != nil && strings.EqualFold(gc.Call.StaticCallee().Name(), "complete") {
+							okG = true
+						}
+					}
+					if !okG {
+						bad = ret.Pos()
+					}
+					continue
+				}
+				vc, isC := v.(*ssa.Call)
+				if !isC || vc.Call.StaticCallee() == nil || !strings.EqualFold(vc.Call.StaticCallee().Name(), "complete") {
+					bad = ret.Pos()
+				}
+			}
+			r.Check(bad == token.NoPos, "R4", "Torrent.Request/"+h.Name()+"-true-means-verified", c.Pos(), "the store's answer that lets Request return without queueing is the piece's Complete()",
+				"(*Pieces)."+h.Name()+" can return true for a piece that is not complete ("+p.pos(bad)+"): Torrent.Request then answers \"nothing to wait for\" for a piece that is still being hashed; if the hash fails nobody is waiting for the piece and no priority was registered for it")
+		})
+		r.Sentinel("R4.store-answer", nC, 1)
+	}
 	// (a') the converse: once the request event has been handed to the loop and the torrent is alive, Request reports
 	// it registered — whatever the loop answered. (The loop registers the priority even when the piece has meanwhile
 	// been verified and there is nothing to wait for; a reader told "not registered" never withdraws it.)
